@@ -236,6 +236,15 @@ def L(id_, file, func, keyword, nth, name, count=None):
 
 # group name -> list of rules.  A property's obligations name the groups their TU depends on.
 RULES = {
+ 'qs_attempts_small': [
+  {'id': 'rcu_qs_active_attempts', 'file': 'src/urcu.c', 'kind': 'regex', 'pattern': r'^#define RCU_QS_ACTIVE_ATTEMPTS 100\s*$',
+   'repl': '#define RCU_QS_ACTIVE_ATTEMPTS 2', 'count': 1},
+ ],
+ # tuning constant only: number of spins before sleeping (bounded stand-in; the thorough tier keeps 1000)
+ 'wait_attempts_small': [
+  {'id': 'urcu_wait_attempts', 'file': 'src/urcu-wait.h', 'kind': 'regex', 'pattern': r'^#define URCU_WAIT_ATTEMPTS 1000\s*$',
+   'repl': '#define URCU_WAIT_ATTEMPTS 3', 'count': 1},
+ ],
  'lfstack': [
   L('lfs_pop_loop', 'include/urcu/static/lfstack.h', '___cds_lfs_pop', 'for', 1, 'lfs_pop', count=1),
   L('lfs_push_loop', 'include/urcu/static/lfstack.h', '_cds_lfs_push', 'for', 1, 'lfs_push', count=1),
